@@ -72,7 +72,7 @@ Notation ins := (ins maxCap stepRaw blockCount).
 Notation split_node := (split_node maxCap stepRaw blockCount).
 
 Hypothesis maxCap_pos : 0 < maxCap.
-Hypothesis leaf_cap_ok : forall ic c, c <= maxCap -> c <= leaf_cap ic c /\ leaf_cap ic c <= maxCap.
+Hypothesis leaf_cap_ok : forall ic c, c <= maxCap -> c <= leaf_cap ic c /\ 0 < leaf_cap ic c <= maxCap.
 Hypothesis split_ok : forall c j, 0 < c -> c <= maxCap -> j <= c -> split_index c j < c.
 
 Lemma mk_shape_leaf ic ks : length ks <= maxCap -> shape 0 (mk ic true ks []).
@@ -80,7 +80,7 @@ Proof. intros H. unfold BTreeModel.mk. simpl. unfold n_count. simpl. destruct (l
 
 Lemma mk_shape_int ic d ks cs :
   length ks <= maxCap -> length cs = S (length ks) -> Forall (shape d) cs -> shape (S d) (mk ic false ks cs).
-Proof. intros H L F. unfold BTreeModel.mk. simpl. unfold n_count. simpl. auto. Qed.
+Proof. intros H L F. unfold BTreeModel.mk. simpl. unfold n_count. simpl. repeat split; auto; lia. Qed.
 
 (* ---------- where pvAdd inserts ---------- *)
 Lemma rightmost_spec d n :
@@ -260,6 +260,136 @@ Proof.
         replace (flatten (mk ic true (firstn s ks') [])) with (firstn s ks') by reflexivity.
         rewrite <- (firstn_insert_at j x (n_items n)) by auto. fold ks'.
         symmetry. apply firstn_cut; lia.
+Qed.
+
+(* a child position inside a (possibly over-full) node N: child c' = cX holds x at (q, i) *)
+Definition vpos (d : nat) (x : Z) (N : node) (c' : nat) (q : list nat) (i : nat) (bef : list Z) : Prop :=
+  exists cX, nth_error (n_children N) c' = Some cX /\ valid d q cX i /\ item_at q cX i = Some x /\
+             pre N c' ++ before q cX i = bef.
+
+Lemma vpos_done d x N c' q i bef :
+  vpos d x N c' q i bef ->
+  valid (S d) (c' :: q) N i /\ item_at (c' :: q) N i = Some x /\ before (c' :: q) N i = bef.
+Proof. intros (cX & E & V & I & B). sp. rewrite E. auto. Qed.
+
+(* the position survives the cut: left part *)
+Lemma vpos_cut_left ic d x N c' q i bef s' :
+  vpos d x N c' q i bef -> c' <= s' ->
+  let n1 := mk ic false (firstn s' (n_items N)) (firstn (S s') (n_children N)) in
+  valid (S d) (c' :: q) n1 i /\ item_at (c' :: q) n1 i = Some x /\ before (c' :: q) n1 i = bef.
+Proof.
+  intros (cX & E & V & I & B) Hc n1. subst n1. unfold BTreeModel.mk. sp. cbn [n_children n_items].
+  rewrite nth_error_firstn' by lia. rewrite E. repeat split; auto.
+  rewrite <- B. f_equal. rewrite pre_Node. unfold pre.
+  rewrite <- firstn_map', !firstn_firstn, !Nat.min_l by lia. reflexivity.
+Qed.
+
+(* ... right part *)
+Lemma vpos_cut_right ic d x N c' q i bef s' :
+  vpos d x N c' q i bef -> s' < c' -> length (n_children N) = S (n_count N) ->
+  let n1 := mk ic false (firstn s' (n_items N)) (firstn (S s') (n_children N)) in
+  let n2 := mk ic false (skipn (S s') (n_items N)) (skipn (S s') (n_children N)) in
+  valid (S d) ((c' - s' - 1) :: q) n2 i /\ item_at ((c' - s' - 1) :: q) n2 i = Some x /\
+  flatten n1 ++ nth s' (n_items N) 0%Z :: before ((c' - s' - 1) :: q) n2 i = bef.
+Proof.
+  intros (cX & E & V & I & B) Hc L n1 n2. subst n1 n2. unfold BTreeModel.mk. sp. cbn [n_children n_items].
+  rewrite nth_error_skipn'. replace (S s' + (c' - s' - 1)) with c' by lia. rewrite E. repeat split; auto.
+  rewrite <- B. rewrite pre_Node. unfold pre. cbn [flatten].
+  assert (Hc' : c' <= n_count N) by (apply nth_error_lt in E; lia).
+  rewrite (zipcat_firstn_cut (map flatten (n_children N)) (n_items N) s' c') by (rewrite ?map_length; unfold n_count in *; lia).
+  rewrite <- firstn_map', <- skipn_map'. rewrite <- app_assoc. reflexivity.
+Qed.
+
+Definition ins_up (ic : nat) (n : node) (c : nat) (r : ins_res) : ins_res :=
+  match r with
+  | Done ch' (q, i) => Done (Node (n_cap n) (n_items n) (replace_at c ch' (n_children n))) (c :: q, i)
+  | Split c1 sep c2 rt (q, i) =>
+      let off := if rt then 1 else 0 in
+      if n_count n <? n_cap n then
+        Done (Node (n_cap n) (insert_at c sep (n_items n))
+                   (firstn c (n_children n) ++ c1 :: c2 :: skipn (S c) (n_children n)))
+             ((c + off) :: q, i)
+      else split_node ic n c sep [c1; c2] (fun i' => ((i' + off) :: q, i))
+  end.
+
+Lemma ins_cons ic c p n j x ch :
+  nth_error (n_children n) c = Some ch -> ins ic (c :: p) n j x = ins_up ic n c (ins ic p ch j x).
+Proof. intros E. cbn [BTreeModel.ins]. rewrite E. reflexivity. Qed.
+
+Lemma ins_step ic d n c ch x bef aft r :
+  shape (S d) n -> nth_error (n_children n) c = Some ch -> ins_ok d x bef aft r ->
+  ins_ok (S d) x (pre n c ++ bef) (aft ++ post n c) (ins_up ic n c r).
+Proof.
+  intros Sh E R. pose proof Sh as (H1 & H2 & L & F).
+  assert (Hc : c < length (n_children n)) by (eapply nth_error_lt; eauto).
+  destruct r as [ch' [q i] | c1 sep c2 rt [q i]]; cbn [ins_ok ins_up] in *.
+  - destruct R as (Sch' & Fl & V & I & B).
+    set (n' := Node (n_cap n) (n_items n) (replace_at c ch' (n_children n))).
+    assert (E' : nth_error (n_children n') c = Some ch') by (apply replace_at_nth_error; auto).
+    assert (L' : length (n_children n') = S (n_count n')) by (unfold n', n_count; simpl; rewrite replace_at_length; auto).
+    split; [|split; [|split; [|split]]].
+    + unfold n'. simpl. unfold n_count. simpl. rewrite replace_at_length by auto. repeat split; auto; try lia.
+      apply Forall_replace_at; auto.
+    + rewrite (flatten_split n' c ch' L' E'). unfold n'. rewrite pre_replace, post_replace by auto.
+      rewrite Fl, <- !app_assoc. reflexivity.
+    + sp. rewrite E'. exact V.
+    + sp. rewrite E'. exact I.
+    + sp. rewrite E'. unfold n'. rewrite pre_replace by auto. rewrite B. reflexivity.
+  - destruct R as (S1 & S2 & Fl & Rpos).
+    set (N := absorb (n_cap n) n c c1 sep c2).
+    destruct (absorb_facts (n_cap n) n c ch c1 sep c2 L E) as (LN & CN & E1 & E2 & P1 & P2 & FN). fold N in LN, CN, E1, E2, P1, P2, FN.
+    assert (FlN : flatten N = (pre n c ++ bef) ++ x :: aft ++ post n c).
+    { rewrite FN, Fl, <- !app_assoc. reflexivity. }
+    assert (FN' : Forall (shape d) (n_children N)).
+    { unfold N, absorb. cbn [n_children]. apply Forall_app. split; [apply Forall_firstn; auto|].
+      constructor; auto. constructor; auto. apply Forall_skipn; auto. }
+    assert (VP : vpos d x N (c + if rt then 1 else 0) q i (pre n c ++ bef)).
+    { destruct rt.
+      - destruct Rpos as (V & I & B). rewrite Nat.add_1_r. exists c2. repeat split; auto.
+        rewrite P2, <- B, <- !app_assoc. reflexivity.
+      - destruct Rpos as (V & I & B). rewrite Nat.add_0_r. exists c1. repeat split; auto.
+        rewrite P1, B. reflexivity. }
+    destruct (n_count n <? n_cap n) eqn:Efull.
+    + apply Nat.ltb_lt in Efull. change (Node (n_cap n) (insert_at c sep (n_items n)) (firstn c (n_children n) ++ c1 :: c2 :: skipn (S c) (n_children n))) with N.
+      cbn [ins_ok]. split; [|split].
+      * assert (CapN : n_cap N = n_cap n) by reflexivity.
+        cbn [BTreeBase.shape]. rewrite CapN. repeat split; auto; lia.
+      * exact FlN.
+      * apply vpos_done. exact VP.
+    + apply Nat.ltb_ge in Efull. assert (Hcnt : n_count n <= maxCap) by lia.
+      unfold BTreeModel.split_node. rewrite (shape_S_internal _ _ _ Sh).
+      change (firstn c (n_children n) ++ [c1; c2] ++ skipn (S c) (n_children n)) with (n_children N).
+      change (insert_at c sep (n_items n)) with (n_items N).
+      assert (Hcc : c <= n_count n) by lia.
+      assert (Hpos : 0 < n_count n).
+      { lia. }
+      assert (Hs : split_index (n_count n) c < n_count n) by (apply split_ok; lia).
+      set (s := split_index (n_count n) c) in *.
+      assert (LkN : length (n_items N) = S (n_count n)) by exact CN.
+      assert (LcN : length (n_children N) = S (length (n_items N))) by exact LN.
+      destruct (c <=? s) eqn:Ecs; cbn [negb ins_ok].
+      * apply Nat.leb_le in Ecs.
+        destruct (cut_int ic d (n_items N) (n_children N) (S s) ltac:(lia) ltac:(lia) LcN FN') as (Sa & Sb & Fc).
+        rewrite <- flatten_unfold in Fc.
+        split; [exact Sa|]. split; [exact Sb|]. split; [rewrite Fc; exact FlN|].
+        apply (vpos_cut_left ic d x N _ q i _ (S s) VP). destruct rt; lia.
+      * apply Nat.leb_gt in Ecs.
+        destruct (cut_int ic d (n_items N) (n_children N) s ltac:(lia) ltac:(lia) LcN FN') as (Sa & Sb & Fc).
+        rewrite <- flatten_unfold in Fc.
+        split; [exact Sa|]. split; [exact Sb|]. split; [rewrite Fc; exact FlN|].
+        replace (c - s - 1 + (if rt then 1 else 0)) with ((c + (if rt then 1 else 0)) - s - 1) by (destruct rt; lia).
+        apply (vpos_cut_right ic d x N _ q i _ s VP); [destruct rt; lia | exact LN].
+Qed.
+
+Lemma ins_spec ic x d p n j :
+  shape d n -> valid d p n j -> length p = d ->
+  ins_ok d x (before p n j) (after p n j) (ins ic p n j x).
+Proof.
+  revert d n; induction p as [|c p IH]; intros d n Sh V Lp.
+  - simpl in Lp. subst d. sp. rewrite (shape_0_leaf _ _ Sh). apply ins_leaf_ok; auto.
+  - destruct (valid_cons _ _ _ _ _ V) as (d' & ch & -> & E & V').
+    rewrite (ins_cons ic c p n j x ch E). sp. rewrite E.
+    apply (ins_step ic d' n c ch); auto. apply IH; auto; try (eapply shape_child; eauto); simpl in Lp; lia.
 Qed.
 
 End Add.
